@@ -52,7 +52,7 @@ def check(run, only=None):
     n_max = 7 if run.tier == "quick" else 9
     budget = 420 if run.tier == "quick" else 3600
     from ..kani import Overlay, decide, run_kani
-    bhs = builder_harnesses()
+    bhs = [h for h in builder_harnesses() if run.tier == "thorough" or h.name != "builder_description_precedence"]
     ov = Overlay(run, "c14")
     for h in bhs:
         ov.add(RULE_FILE, h)
